@@ -54,6 +54,7 @@ type replayResult struct {
 	TapeMisses  []string          `json:"tape_misses"`
 	WallClockOK bool              `json:"wall_clock_ok"`
 	Hung        bool              `json:"hung,omitempty"`
+	Raced       bool              `json:"raced,omitempty"`
 }
 
 func shortName(full string) string {
@@ -123,8 +124,12 @@ func runNative(overlay map[string]string, all []harnessRef, rel string, cases []
 	os.WriteFile(tapes, cd, 0o644)
 	outFile := filepath.Join(dir, "native.json")
 	os.Remove(outFile)
-	cmd := exec.Command("go", "test", "-tags", "verif", "-overlay", ovFile, "-vet=off", "-count=1", "-timeout", "20m",
-		"-run", "^TestZZReplay$", "./"+rel+"/")
+	args := []string{"test", "-tags", "verif", "-overlay", ovFile, "-vet=off", "-count=1", "-timeout", "20m"}
+	if nativeRace {
+		args = append(args, "-race")
+	}
+	args = append(args, "-run", "^TestZZReplay$", "./"+rel+"/")
+	cmd := exec.Command("go", args...)
 	cmd.Dir = repoRoot()
 	cmd.Env = append(goEnv(), "VERIF_TAPES="+tapes, "VERIF_OUT="+outFile)
 	outb, err := cmd.CombinedOutput()
@@ -139,10 +144,21 @@ func runNative(overlay map[string]string, all []harnessRef, rel string, cases []
 	}
 	m := map[string]*replayResult{}
 	for _, r := range rs {
+		if nativeRace && strings.Contains(string(outb), "WARNING: DATA RACE") {
+			// the race detector's verdict is per process: the cases of this run are the RACE counterexamples
+			r.Raced = true
+			if r.Panic == "" {
+				r.Panic = "DATA RACE reported by the Go race detector"
+			}
+		}
 		m[r.ID] = r
 	}
 	return m, string(outb), nil
 }
+
+// nativeRace: the next runNative call builds and runs the replay with -race (used for the counterexamples
+// of the engine's lockset check).
+var nativeRace bool
 
 func (rp *report) nativeReplay() {
 	t0 := time.Now()
@@ -211,7 +227,29 @@ func (rp *report) nativeReplay() {
 			cases = append(cases, rc)
 		}
 		dir := filepath.Join(rp.outDir, "native", strings.ReplaceAll(rel, "/", "_"))
+		var raceCases, plain []replayCase
+		for i, cr := range refs {
+			if strings.Contains(cr.cex.Assertion, "RACE") && (cr.kind == "violation" || cr.kind == "known") {
+				rc := cases[i]
+				rc.Repeat = 4
+				raceCases = append(raceCases, rc)
+			} else {
+				plain = append(plain, cases[i])
+			}
+		}
+		cases = plain
+		var raceRes map[string]*replayResult
+		if len(raceCases) > 0 {
+			nativeRace = true
+			raceRes, _, _ = runNative(rp.overlay, rp.allHarness, rel, raceCases, dir+"_race")
+			nativeRace = false
+		}
 		res, log, err := runNative(rp.overlay, rp.allHarness, rel, cases, dir)
+		if err == nil {
+			for id, r := range raceRes {
+				res[id] = r
+			}
+		}
 		if err != nil {
 			rp.replayProblems = append(rp.replayProblems, fmt.Sprintf("native replay of %s failed: %v\n%s", rel, err, tail(log, 30)))
 			continue
@@ -275,6 +313,14 @@ func (rp *report) judge(cr caseRef, r *replayResult) {
 	}
 	// a hang that reproduces a reported deadlock cannot, by nature, finish inside the wall-clock window
 	hungAsPredicted := reproduced && r.Hung && strings.Contains(c.Assertion, "DEADLOCK")
+	if strings.Contains(c.Assertion, "RACE") {
+		// decided by the race detector alone (a race-instrumented binary is slow: no wall-clock window)
+		if !r.Raced {
+			fail("the race detector did not report the race natively")
+			return
+		}
+		hungAsPredicted = true
+	}
 	if !r.WallClockOK && !hungAsPredicted {
 		fail("native run exceeded the 1s wall-clock window")
 		return
